@@ -2,6 +2,7 @@
   Driver.Line — line / emit cases (C01, C02, C03, C04, C16 …).
 -/
 import Driver.Common
+import Model.Base64
 import Model.CastGen
 import Model.Template
 import Model.LineSpec
@@ -146,12 +147,12 @@ def lineSpecViolation (prop : String) (cols : List LineSpec.Col) (input : Bytes)
       let (outMs, okOut) := Json.unmarshal revBody.reverse
       let (inMs, okIn) := Json.unmarshal input
       if !okOut then some "invalid-json-object"
-      else if !okIn then some "accepted-invalid-input"
+      else if !okIn && prop == "C03" then some "accepted-invalid-input"   -- C04 judges the output alone
       else
         let v := if prop == "C03" then LineSpec.orderViolation 8 cols (LineSpec.normDup inMs) outMs false
                  else LineSpec.classViolation 8 cols outMs
         match v with
-        | none => none
+        | none => if prop == "C03" then LineSpec.missingColumnViolation cols (LineSpec.normDup inMs) outMs else none
         | some (clause, inSub) => some (if inSub then "subrow-flatten:" ++ clause else clause)
     | _ => some "no-trailing-newline"
 
@@ -176,7 +177,7 @@ def c14LineViolation (input : Bytes) (i : Impl) : Option String :=
       let (inMs, okIn) := Json.unmarshal input
       if !okOut || !okIn then some "invalid-json-object"
       else
-        inMs.toList.foldl (fun (acc : Option String) kv =>
+        (LineSpec.normDup inMs).toList.foldl (fun (acc : Option String) kv =>
           match acc with
           | some _ => acc
           | none =>
@@ -202,7 +203,52 @@ def c14LineViolation (input : Bytes) (i : Impl) : Option String :=
             | _ => none) none
     | _ => some "no-trailing-newline"
 
+/-- Width in bytes of the fixed-width raw types (C11). -/
+def fixedWidth : Ty → Option Nat
+  | .int t => some (t.bits / 8)
+  | .f64 => some 8
+  | .f32 => some 4
+  | .bool => some 1
+  | _ => none
+
+/-- C11 at line level: under a binary column declared with a fixed-width raw type an accepted line carries a
+    payload of exactly that width (null apart), and the column re-emits the canonical base64 of the bytes it
+    accepted. -/
+def c11LineViolation (cols : List LineSpec.Col) (input : Bytes) (i : Impl) : Option String :=
+  if i.panic then some "panic"
+  else if !i.ok then none
+  else
+    match i.bytes.reverse with
+    | 0x0A :: revBody =>
+      let (outMs, okOut) := Json.unmarshal revBody.reverse
+      let (inMs0, okIn) := Json.unmarshal input
+      let inMs := LineSpec.normDup inMs0
+      if !okOut || !okIn then some "invalid-json-object"
+      else
+        cols.findSome? fun c =>
+          match c with
+          | .leaf n .binary ty =>
+            match fixedWidth ty, LineSpec.lookupJV inMs n with
+            | some w, some (.str s) =>
+              match Base64.decode s with
+              | some b =>
+                if b.length != w then some "wrong-size-accepted"
+                else if ty == .bool && b != [0] && b != [1] then none   -- any non-zero byte reads as true
+                else
+                  match LineSpec.lookupJV outMs n with
+                  | some (.str o) => if o == Base64.encode b then none else some "not-re-emitted-as-accepted"
+                  | _ => some "member-missing-or-wrong-type"
+              | none => some "invalid-base64-accepted"
+            | _, _ => none
+          | _ => none
+    | _ => some "no-trailing-newline"
+
 def oracle (prop : String) (cols : Option (List LineSpec.Col)) (input : Bytes) (i : Impl) : Option String :=
+  if prop == "C11" then
+    match cols with
+    | some cols => c11LineViolation cols input i
+    | none => none
+  else
   if prop == "C01" then c01Violation i
   else if prop == "C03" || prop == "C04" then
     match cols with
@@ -219,7 +265,8 @@ def judge (prop : String) (what : String) (m : Outcome (Bytes × Option ErrClass
     let ms := showLine m
     let is := if i.panic then "panic" else if i.ok then "ok " ++ hexTok i.bytes else "err " ++ i.cls
     let abstain := ms == "err EXT"
-    let d := ms != is
+    -- the command route (jl binary) reports a rejected line without its error class: `err any`
+    let d := if i.cls == "any" && !i.ok && !i.panic then !(ms.startsWith "err ") else ms != is
     let p := oracle prop cols input i
     match d, p with
     | false, none => ⟨"S", ""⟩
@@ -244,7 +291,10 @@ def runEmit (prop toS valS extS implS : String) : Result :=
     match v with
     | .str line => judge prop s!"emit to=[{toS}] v=[{valS}]" (exportLine env to v) implS (colsOf toS) line
     | .bytes line => judge prop s!"emit to=[{toS}] v=[{valS}]" (exportLine env to v) implS (colsOf toS) line
-    | _ => judge prop s!"emit to=[{toS}] v=[{valS}]" (exportLine env to v) implS
+    | _ =>
+      -- a Go value (row, map, slice …): the lexical classes of what is emitted are judged all the same (C04)
+      if prop == "C04" then judge prop s!"emit to=[{toS}] v=[{valS}]" (exportLine env to v) implS (colsOf toS) []
+      else judge prop s!"emit to=[{toS}] v=[{valS}]" (exportLine env to v) implS
   | _, _ => ⟨"B", "cannot parse template or value"⟩
 
 mutual
@@ -304,7 +354,8 @@ def runRoundTrip (lineS domS extS firstS secondS : String) : Result :=
     let is2 := match second with
       | none => "-"
       | some s2 => if s2.panic then "panic" else if s2.ok then "ok " ++ hexTok s2.bytes else "err " ++ s2.cls
-    let d := ms1 != is1 || m2s != is2
+    let same (m i : String) : Bool := if i == "err any" then m.startsWith "err " else m == i
+    let d := !(same ms1 is1) || !(same m2s is2)
     let p := if domS == "1" then c02Violation line first second else (if first.panic then some "panic" else none)
     match d, p with
     | false, none => ⟨"S", ""⟩
